@@ -40,28 +40,29 @@ type GhostAt struct {
 }
 
 type FuncContract struct {
-	Key      string
-	PkgPath  string // package whose contract file declared it
-	Extern   bool   // assumed contract on a dependency (never verified)
-	IsIface  bool
-	Pure     bool
-	Opaque   bool
-	Trusted  bool
-	NoReturn bool
-	NoFrame  bool // the modifies clause is used at call sites but not checked against the body
-	Serves   []string
-	Requires []*Clause
-	Ensures  []*Clause
-	Invokes  *InvokeSpec // higher-order: the callee calls one of its function arguments at most once
-	Assumes  []*Clause // postconditions assumed at call sites but not proved of the body (explicitly trusted part)
-	Modifies []string
-	Safe     map[string]bool
-	Loops    map[int]*LoopSpec
-	Ghosts   []*GhostAt
-	Abstract []string
-	File     string
-	Line     int
-	Used     bool
+	Key       string
+	PkgPath   string // package whose contract file declared it
+	Extern    bool   // assumed contract on a dependency (never verified)
+	IsIface   bool
+	Pure      bool
+	Opaque    bool
+	Trusted   bool
+	NoReturn  bool
+	NoFrame   bool // the modifies clause is used at call sites but not checked against the body
+	Serves    []string
+	Requires  []*Clause
+	Ensures   []*Clause
+	Invokes   *InvokeSpec // higher-order: the callee calls one of its function arguments at most once
+	Assumes   []*Clause   // postconditions assumed at call sites but not proved of the body (explicitly trusted part)
+	Modifies  []string
+	Safe      map[string]bool
+	Loops     map[int]*LoopSpec
+	KindLoops map[string]*LoopSpec // "map 0", "slice 1", "for 0": ordinal among the loops of that kind
+	Ghosts    []*GhostAt
+	Abstract  []string
+	File      string
+	Line      int
+	Used      bool
 }
 
 // InvokeSpec: `invokes fn(x) requires <cond over x>`: the callee either does not call fn, or calls it exactly once with
@@ -434,6 +435,25 @@ func (cs *Contracts) loadContractFile(path, pkgPath string, imports map[string]s
 		case cur != nil && head == "abstract":
 			cur.Abstract = append(cur.Abstract, strings.TrimSpace(l[len("abstract"):]))
 			lastClause = nil
+		case cur != nil && head == "loop" && len(fields) >= 4 && (fields[1] == "map" || fields[1] == "slice" || fields[1] == "for"):
+			if _, err := strconv.Atoi(fields[2]); err != nil {
+				return fmt.Errorf("%s:%d: bad loop ordinal", path, i+1)
+			}
+			rest := strings.TrimSpace(l[len("loop"):])
+			rest = strings.TrimSpace(strings.TrimPrefix(rest, fields[1]))
+			rest = strings.TrimSpace(strings.TrimPrefix(rest, fields[2]))
+			m := clauseHead.FindStringSubmatch(rest)
+			if m == nil || m[1] != "invariant" {
+				return fmt.Errorf("%s:%d: expected 'loop KIND N invariant[...] expr'", path, i+1)
+			}
+			if cur.KindLoops == nil {
+				cur.KindLoops = map[string]*LoopSpec{}
+			}
+			key := fields[1] + " " + fields[2]
+			if cur.KindLoops[key] == nil {
+				cur.KindLoops[key] = &LoopSpec{}
+			}
+			cur.KindLoops[key].Invariants = append(cur.KindLoops[key].Invariants, mk("invariant", m[2], m[3]))
 		case cur != nil && head == "loop" && len(fields) >= 3:
 			n, err := strconv.Atoi(fields[1])
 			if err != nil {
@@ -584,6 +604,11 @@ func (cs *Contracts) parseAll() error {
 			try(fc.Invokes.Clause)
 		}
 		for _, l := range fc.Loops {
+			for _, c := range l.Invariants {
+				try(c)
+			}
+		}
+		for _, l := range fc.KindLoops {
 			for _, c := range l.Invariants {
 				try(c)
 			}
